@@ -197,12 +197,13 @@ Proof.
       unfold size, raw; simpl list_sum; simpl flat_map. rewrite app_nil_r, Nat.add_0_r, Hm.
       split; [lia|].
       unfold seq. rewrite put_fresh by (simpl; lia).
-      pose proof (each128_spec W (pre ++ [byte (1 + 16 * m); if m =? length us then ad_complete_128 else ad_incomplete_128]) (k - 2)) as H2.
-      cbv zeta in H2. simpl length at 1 in H2. fold m in H2.
-      change (length [byte (1 + 16 * m); if m =? length us then ad_complete_128 else ad_incomplete_128]) with 2.
-      rewrite H2.
+      set (hd := [byte (1 + 16 * m); if m =? length us then ad_complete_128 else ad_incomplete_128]).
+      change (length hd) with 2.
+      pose proof (each128_spec W (pre ++ hd) (k - 2)) as H2. cbv zeta in H2. fold m in H2.
+      rewrite H2. unfold hd.
       replace (1 + 16 * m) with (S (16 * m)) by lia.
-      rewrite <- !app_assoc. simpl. repeat f_equal; lia.
+      replace (k - 2 - 16 * m) with (k - S (S (16 * m))) by lia.
+      rewrite <- !app_assoc. reflexivity.
 Qed.
 
 Lemma sat_range r : sat (w_range r) (g_range r).
@@ -217,7 +218,7 @@ Qed.
 Lemma sat_tail : sat w_tail g_tail.
 Proof.
   intros pre k. unfold w_tail, g_tail. rewrite room. destruct (2 <=? k) eqn:E.
-  - split; [simpl; lia|]. rewrite put_fresh by (simpl; lia). reflexivity.
+  - split; [change (2 <= k); lia|]. rewrite put_fresh by (simpl; lia). reflexivity.
   - split; [apply Nat.le_0_l | apply skip_none].
 Qed.
 
@@ -226,8 +227,8 @@ Lemma sat_flags0 k :
   w_flags (repeat fill k) 0 = Some (raw (g_flags k) ++ repeat fill (k - size (g_flags k)), length (raw (g_flags k))).
 Proof.
   unfold w_flags, g_flags. rewrite repeat_length. destruct (3 <=? k) eqn:E.
-  - split; [simpl; lia|]. exact (@put_fresh [] k [2%N; ad_flags; 6%N] ltac:(simpl; lia)).
-  - split; [simpl; lia|]. simpl. now rewrite Nat.sub_0_r.
+  - split; [change (3 <= k); lia|]. exact (@put_fresh [] k [2%N; ad_flags; 6%N] ltac:(simpl; lia)).
+  - split; [apply Nat.le_0_l|]. simpl. now rewrite Nat.sub_0_r.
 Qed.
 
 (* ------------------------------------------------------------------ 3. the whole generator, any buffer size *)
@@ -249,7 +250,7 @@ Proof.
   destruct (sat_flags0 b) as [L0 E0]. rewrite E0.
   destruct (writers_sat W (raw (g_flags b)) (b - size (g_flags b))) as [L1 E1]. rewrite E1.
   rewrite size_app, raw_app. split; [lia|].
-  rewrite app_length, !raw_length. repeat f_equal. lia.
+  rewrite app_length, !raw_length, Nat.sub_add_distr. reflexivity.
 Qed.
 
 Lemma firstn_app_exact (A : Type) (a b : list A) : firstn (length a) (a ++ b) = a.
@@ -349,7 +350,7 @@ Qed.
 
 Lemma small_ads_ok ads : size ads <= 256 -> Forall ad_ok ads.
 Proof.
-  intros H. apply Forall_forall. intros a Ha. pose proof (ad_size_le_size Ha).
+  intros H. apply Forall_forall. intros a Ha. pose proof (@ad_size_le_size a ads Ha).
   destruct a; simpl in *; [exact I | lia].
 Qed.
 
